@@ -18,5 +18,6 @@ INVARIANT InvPow
 INVARIANT InvPow2
 INVARIANT InvChain
 INVARIANT InvGroupFlat
+INVARIANT InvLiteral
 INVARIANT InvScopeDefault
 INVARIANT InvScopeLocal
